@@ -24,6 +24,7 @@ impl Default for C05 {
             "liquidator_had_debt_in_asset_bank",
             "decimals_differ",
             "insurance_fee_fractional",
+            "strictness_judged_in_program_arithmetic",
         ]);
         C05 { cov }
     }
@@ -119,6 +120,31 @@ impl Monitor for C05 {
                 (Err(e), _) | (_, Err(e)) => {
                     out.push(viol("C05", "liquidated_with_unusable_price", ix.tag,
                         format!("liquidatee {liquidatee}: {e:?}"), idx));
+                }
+            }
+            // "strictly better", measured with the program's own valuation (real pulse_health on
+            // forks of the pre- and post-liquidation states): Ref's exact rationals cannot decide
+            // strictness below one ulp, the program's arithmetic can
+            {
+                let mh = |st: &Store| -> Option<Q> {
+                    let rm = crate::world::risk_metas(st, &liquidatee, None, None);
+                    let t = crate::rt::Tx::one("c05_fork", crate::ix::pulse_health(liquidatee, rm));
+                    let (o, p) = s.exec.execute(st, s.clock, &t);
+                    if !o.ok() {
+                        return None;
+                    }
+                    let a = model::account_of(&p?, &liquidatee)?;
+                    if a.health_cache.flags & 2 == 0 {
+                        return None;
+                    }
+                    Some(q_w(a.health_cache.asset_value_maint) - q_w(a.health_cache.liability_value_maint))
+                };
+                if let (Some(m0), Some(m1)) = (mh(&pre_at_post), mh(b)) {
+                    if m1 <= m0 {
+                        out.push(viol("C05", "health_not_strictly_better", ix.tag,
+                            format!("liquidatee {liquidatee}: program-valued maintenance health {} -> {}", q_str(&m0), q_str(&m1)), idx));
+                    }
+                    self.cov.probe("strictness_judged_in_program_arithmetic");
                 }
             }
             // no flips on the liquidatee
